@@ -100,10 +100,6 @@ pub fn hex_string(rng: &mut ChaCha20Rng, n_chars: usize) -> String {
     (0..n_chars).map(|_| H[rnd::usize_below(rng, 16)] as char).collect()
 }
 
-pub fn be64(n: u64) -> [u8; 8] {
-    n.to_be_bytes()
-}
-
 /// shorten long strings for `what` messages
 pub fn clip(s: &str, n: usize) -> String {
     if s.chars().count() <= n {
